@@ -245,3 +245,73 @@ def stepL (s : S) : List String → S × String
     | some (p, a) => let l := lSettle p a s.l; ({ s with l := l }, s!"{showL l} held={l.held}")
     | none => (s, "bad-op")
   | _ => (s, "bad-op")
+
+def stepQ (s : S) : List String → S × String
+  | ["q.init", cap, dur] =>
+    match nat? cap, nat? dur with
+    | some cap, some dur => ({ s with q := { cache := { cap := cap, dur := dur } } }, "ok")
+    | _, _ => (s, "bad-op")
+  | "q.call" :: cn :: now :: ks =>
+    match bool? cn, nat? now, allNats? ks with
+    | some cn, some now, some ks =>
+      match qstep s.q (.call ks cn now) with
+      | some q => ({ s with q := q }, s!"ok {s.q.callers.length}")
+      | none => (s, "disabled")
+    | _, _, _ => (s, "bad-op")
+  | ["q.cancel", i] =>
+    match nat? i with
+    | some i => match qstep s.q (.cancel i) with
+      | some q => ({ s with q := q }, "ok")
+      | none => (s, "disabled")
+    | none => (s, "bad-op")
+  | "q.base" :: i :: now :: rest =>
+    match nat? i, nat? now, parseErr rest with
+    | some i, some now, some r => match qstep s.q (.baseEnd i r now) with
+      | some q => ({ s with q := q }, "ok")
+      | none => (s, "disabled")
+    | _, _, _ => (s, "bad-op")
+  | "q.settle" :: now :: rest =>
+    match nat? now, parseSettle rest with
+    | some now, some (p, a) => let q := qSettle now p a s.q; ({ s with q := q }, s!"{showQ q} token={q.token}")
+    | _, _ => (s, "bad-op")
+  | _ => (s, "bad-op")
+
+def stepE (s : S) : List String → S × String
+  | ["e.init", cap, dur] =>
+    match nat? cap, nat? dur with
+    | some cap, some dur => ({ s with ec := { cap := cap, dur := dur }, eb := { data := fun _ => none } }, "ok")
+    | _, _ => (s, "bad-op")
+  | ["e.set", k] =>
+    match nat? k with
+    | some k => ({ s with eb := Backend.setKey s.eb k (some 1) }, "ok")
+    | none => (s, "bad-op")
+  | ["e.del", k] =>
+    match nat? k with
+    | some k => ({ s with eb := Backend.setKey s.eb k none }, "ok")
+    | none => (s, "bad-op")
+  | "e.fault" :: rest =>
+    match parseErr (if rest == ["none"] then rest else "err" :: rest) with
+    | some f => ({ s with eb := { s.eb with faults := s.eb.faults ++ [f] } }, "ok")
+    | none => (s, "bad-op")
+  | "e.fm" :: n1 :: n2 :: ks =>
+    match nat? n1, nat? n2, allNats? ks with
+    | some n1, some n2, some ks =>
+      let asked := (s.ec.removeExisting n1 ks).2
+      let r := ecFindMissing s.ec s.eb n1 n2 ks
+      ({ s with ec := r.1.1, eb := r.1.2 }, s!"{showMissing r.2} / asked {showKeys asked}")
+    | _, _, _ => (s, "bad-op")
+  | _ => (s, "bad-op")
+
+def step (s : S) (line : String) : S × String :=
+  let ws := words line
+  match ws with
+  | [] => (s, "bad-op")
+  | w :: _ =>
+    if w.startsWith "c." then stepC s ws
+    else if w.startsWith "d." then stepD s ws
+    else if w.startsWith "l." then stepL s ws
+    else if w.startsWith "q." then stepQ s ws
+    else if w.startsWith "e." then stepE s ws
+    else (s, "bad-op")
+
+def main : IO Unit := loop step {}
